@@ -146,8 +146,9 @@ def handleC13 : List String → Option String
     let z ← C13.parseList (C13.parseRR names) (← C13.stripKey "Z" z) ';'
     let s ← C13.stripKey "s" s
     let origin ← if o = "none" then some none else (C13.parseName o).map some
-    let ser : Option Int ← if s = "none" then some none else s.toInt?.map some
-    some (match makeQuery origin z ser with
+    -- `s=bad`: a serial that is not an int (str, float)
+    let ser : SerialArg ← if s = "none" then some .absent else if s = "bad" then some .notInt else s.toInt?.map .int
+    some (match makeQueryOf origin z ser with
       | .ok (t, sv) => s!"ok {t} {match sv with | some n => toString n | none => "none"}"
       | .error e => "err:" ++ e.toString)
   | ["c13.glue", o, q, mode, ns, z, us, ts] => do
@@ -184,6 +185,9 @@ def handleC13 : List String → Option String
     let showRs := fun (x : RRset) =>
       s!"{(names.findIdx? (· == x.owner)).getD 9999}:{x.rdtype}:{x.ttl}:{",".intercalate (x.rdatas.map fun d => s!"{d.serial}.{d.body}")}"
     some (if out.isEmpty then "-" else ";".intercalate (out.map showRs))
+  | ["c13.xs", "notquery", _] => some (match extractSerialOf false 0 none with
+      | .ok _ => "ok"
+      | .error e => "err:" ++ e.toString)
   | ["c13.xs", qt, auth] => do
     let qt ← qt.toNat?
     let auth ← C13.parseOptNat auth
